@@ -221,6 +221,12 @@ func (e *Exec) applyContract(fr *frame, st *State, ci ssa.CallInstruction, calle
 		if len(props) == 0 {
 			props = e.propsFor(fr, "safety")
 		}
+		// a violated precondition may make the callee panic: the obligation also serves the callee's safety properties
+		for _, sp2 := range sp.SafetyProps {
+			if !hasPropExact(props, sp2) {
+				props = append(append([]string{}, props...), sp2)
+			}
+		}
 		g, err := e.evalSpecBool(rq.Expr, env)
 		if err != nil {
 			e.notes = appendUnique(e.notes, fmt.Sprintf("%s: requires %s of %s: %v", cname, rq.Label, sp.Name, err))
@@ -342,4 +348,13 @@ func functionalName(base string, k, n int) string {
 		return base
 	}
 	return fmt.Sprintf("%s#%d", base, k)
+}
+
+func hasPropExact(props []string, p string) bool {
+	for _, x := range props {
+		if x == p {
+			return true
+		}
+	}
+	return false
 }
